@@ -827,6 +827,9 @@ func (se *SessionExecutor) executeMultipleSQLInSlice(requestContext *util.Reques
 			// 1) 为当前这条 SQL 新开一个协程（go routine）去执行
 			go func(sql string, begin time.Time) {
 				queryResult, execErr := se.executeSingleSQLInSlice(pooledConn, currentSliceName, dbName, sql)
+				if execErr == nil {
+					execErr = se.fetchRemainingRows(pooledConn, queryResult)
+				}
 				execResultChan <- executeResult{
 					result: queryResult,
 					err:    execErr,
@@ -879,6 +882,22 @@ func (se *SessionExecutor) executeMultipleSQLInSlice(requestContext *util.Reques
 		}
 	}
 	return sliceResults, nil
+}
+
+// fetchRemainingRows completes a shard result that the backend reader returned only in part:
+// DirectConnection stops reading once the rows of one call exceed 16MB and leaves the rest
+// to FetchMoreRows. The unsharded path streams those chunks to the client; a sharded
+// statement needs the whole result before it can merge, so the chunks are appended here.
+func (se *SessionExecutor) fetchRemainingRows(pc backend.PooledConnect, res *mysql.Result) error {
+	if res == nil || res.Resultset == nil {
+		return nil
+	}
+	for pc.MoreRowsExist() {
+		if err := pc.FetchMoreRows(res, se.GetNamespace().GetMaxResultSize()); err != nil {
+			return err
+		}
+	}
+	return nil
 }
 
 type executeResult struct {
